@@ -281,7 +281,7 @@ def run(ctx):
                               'written before a starred argument the layout and its ast.unparse form differ (input: corpus/C13/known_F74.json)')
     for i, p in enumerate(fd.HAND_PROGRAMS):
         programs.append(('hand%d.py' % i, p))
-    for i in range(ctx.pick(70, 600)):
+    for i in range(ctx.pick(55, 600)):
         p, kinds = fd.gen_program(ctx.rng)
         for k, v in kinds.items():
             ctx.histogram('constructs', k, v)
@@ -329,9 +329,9 @@ def run(ctx):
                 same = False
             variants.append(('corpus-layout%d' % j, lt if same else None))
         reads0 = [n for n in ast.walk(tree) if isinstance(n, ast.Name) and isinstance(n.ctx, ast.Load)]
-        picks = sorted(ctx.rng.sample(range(len(reads0)), min(len(reads0), ctx.pick(3, 8) if real_file else ctx.pick(6, 14))))
+        picks = sorted(ctx.rng.sample(range(len(reads0)), min(len(reads0), ctx.pick(3, 8) if real_file else ctx.pick(5, 14))))
         locA = locations_of(text, reads0, picks) if len(text) < 60000 else None
-        apicks = picks[:ctx.pick(4, 8)]
+        apicks = picks[:ctx.pick(3, 8)]
         asA = assists_of(text, reads0, apicks) if len(text) < 60000 and not fd.kw_before_star(tree) else None
         for kind, vt in variants:
             if vt is None:
